@@ -319,4 +319,25 @@ theorem c09_22_cts_window (cfg : Cfg) (s : St) (now : Nat) (mid : MessageId) (de
     · simp only; split <;> split <;> split <;> omega
     · simp only; split <;> split <;> split <;> omega
 
+/-- J1939-22, BROADCAST PACING: a broadcast record emits nothing before its deadline (and asks to be woken exactly then);
+    at or after it exactly ONE FD.TP.DT frame — the next segment — and the following frame (next segment or the
+    end-of-message status) is not due before now + the configured interval, which is exactly the wake-up it asks for -/
+theorem c09_22_bam_spacing (cfg : Cfg) (now : Nat) (b : Snd) (msg : List Nat) (j : Nat) (hs : b.state = S_SENDING_BAM)
+    (hd0 : b.deadline ≠ 0) (hdata : b.data = chunks60 msg) (hnext : b.next = (j : Int)) (hj : j < Tp22.num_segments msg.length) :
+    (now < b.deadline → tickSndOne cfg now b = (some b, [], none, some b.deadline, .none)) ∧
+    (b.deadline ≤ now →
+      (tickSndOne cfg now b).2.1 =
+        [.tx (Tp22.dt Const.LUT_FD_DLC b.src b.dest b.session (j + 1) ((msg.drop (60 * j)).take 60) 0)] ∧
+      (tickSndOne cfg now b).2.2.2.1 = some (now + cfg.bamInterval) ∧
+      ∃ b', (tickSndOne cfg now b).1 = some b' ∧ b'.deadline = now + cfg.bamInterval ∧ b'.next = (j : Int) + 1) := by
+  refine ⟨?_, ?_⟩
+  · intro hlt
+    have e1 : (b.deadline != 0) = true := by simpa using hd0
+    have e2 : b.deadline > now := hlt
+    unfold tickSndOne
+    simp only [e1, if_true, e2]
+  · intro hdue
+    rw [J1939.Props.C02.tickSndOne_bam cfg now b msg j hs hd0 hdue hdata hnext hj]
+    refine ⟨rfl, rfl, _, rfl, ?_, ?_⟩ <;> split <;> rfl
+
 end J1939.Props.C09
